@@ -165,14 +165,15 @@ pub fn probe_direct<M: MArch, const N: usize>(
         check_index::<M, N>(a, exp, vi, None);
         let bi = a.borrow(da).map(|b| b.index());
         check_index::<M, N>(a, exp, bi, None);
-        // to_direct on a direct key hands the key back when it is current
-        if exp.is_some() {
-            assert!(a.to_direct(d) == Some(d), "to_direct(EntityDirect) changed a current handle");
-        }
+        // to_direct on a direct key hands the key back iff it is current ("if the entity exists")
+        assert!(a.to_direct(d) == exp.map(|_| d), "Archetype::to_direct(EntityDirect) accepted a stale handle or changed a current one");
+        assert!(a.to_direct(da) == exp.map(|_| da), "Archetype::to_direct(EntityDirectAny) accepted a stale handle or changed a current one");
     }
     if paths & P_WORLD != 0 {
         assert!(world.contains(d) == exp.is_some(), "World::contains(EntityDirect)");
         assert!(world.contains(da) == exp.is_some(), "World::contains(EntityDirectAny)");
+        assert!(world.to_direct(d) == exp.map(|_| d), "World::to_direct(EntityDirect) accepted a stale handle or changed a current one");
+        assert!(world.to_direct(da) == exp.map(|_| da), "World::to_direct(EntityDirectAny) accepted a stale handle or changed a current one");
         let vi = world.view::<M::Arch, _>(d).map(|v| v.index());
         assert!(vi == exp, "World::view(EntityDirect)");
         let bi = world.borrow::<M::Arch, _>(d).map(|b| b.index());
